@@ -13,7 +13,9 @@ def run(ctx):
     import nsqdmc
     nsqdmc.model_check(ctx)
     n = 16 if ctx.quick else 120
-    corelib.run_modes(ctx, "C01", [("core", n), ("flow", n // 2), ("churn", n // 4)])
+    corelib.run_modes(ctx, "C01", [("core", n), ("flow", n // 2), ("churn", n // 4), ("timing", n // 2)])
+    if not ctx.quick:
+        corelib.repo_tests(ctx, "C01")
     ctx.cov["distinct_nontrivial"] = len(ctx.notes.get("event_kinds", {}))
     ctx.cov["rule"] = ("evaluations = hook/harness events of real executions checked step by step by TLC; distinct = "
                        "event kinds (spec actions) exercised; each run = one seeded scenario (queue sizes, file "
